@@ -32,8 +32,8 @@ var cancelMu sync.Mutex // the loop-top hook is process-wide
 // further timing-sensitive cases would be judged on a degraded machine, so they are skipped
 var cancelTainted int32
 
-func cancelEnv() (types.EnvType, types.MalType, error) {
-	ns, _, err := NewLoadedEnv()
+func cancelEnv() (types.EnvType, *Probe, error) {
+	ns, probe, err := NewLoadedEnv()
 	if err != nil {
 		return nil, nil, err
 	}
@@ -44,7 +44,7 @@ func cancelEnv() (types.EnvType, types.MalType, error) {
 	if _, e := lisp.EVAL(context.Background(), pre, ns); e != nil {
 		return nil, nil, e
 	}
-	return ns, nil, nil
+	return ns, probe, nil
 }
 
 func isTimeoutErr(err error) bool {
@@ -66,7 +66,9 @@ func runCancel(c *Case) Verdict {
 		return v
 	}
 	instants := []int{1, 2, 3, 4, 5, 7, 10, 15, 25, 60, 200, 1500}
-	for _, k := range instants {
+	for i := 0; i < 2*len(instants); i++ {
+		k := instants[i%len(instants)]
+		farDeadline := i >= len(instants) // the cancelled context also carries a deadline that is far away
 		ns, _, err := cancelEnv()
 		if err != nil {
 			return Verdict{Verdict: "infra", Note: err.Error()}
@@ -75,7 +77,13 @@ func runCancel(c *Case) Verdict {
 		if rerr != nil {
 			return Verdict{Verdict: "infra", Note: rerr.Error()}
 		}
-		ctx, cancel := context.WithCancel(context.Background())
+		parent := context.Background()
+		if farDeadline {
+			var cf context.CancelFunc
+			parent, cf = context.WithDeadline(parent, time.Now().Add(time.Hour))
+			defer cf()
+		}
+		ctx, cancel := context.WithCancel(parent)
 		var mainG int64
 		var count, post int64
 		var cancelled int32
@@ -145,6 +153,9 @@ func runCancel(c *Case) Verdict {
 		lisp.VerifLoopTop = nil
 		cancel()
 		where := fmt.Sprintf("shape %d %q, context cancelled at loop iteration %d", c.Shape, c.Src, k)
+		if farDeadline {
+			where += " (the context also has a deadline one hour away)"
+		}
 		if !finished {
 			atomic.StoreInt32(&cancelTainted, 1)
 			v.Verdict = "hang"
@@ -182,7 +193,7 @@ func runDeadline(c *Case) Verdict {
 	D := 1200 * time.Millisecond
 	slack := 2500 * time.Millisecond
 	attempt := func() (string, string) {
-		ns, _, err := cancelEnv()
+		ns, probe, err := cancelEnv()
 		if err != nil {
 			return "infra", err.Error()
 		}
@@ -217,6 +228,15 @@ func runDeadline(c *Case) Verdict {
 			wantValue := c.Opt["expect"] == "value"
 			if wantValue && (o.err != nil || o.res != kwMark+"h") {
 				return "handler-value-lost", fmt.Sprintf("returned %v / %v after %v; the handler's value :h was expected", o.res, o.err, el)
+			}
+			if want := c.Opt["effects"]; wantValue && want != "" {
+				var got []string
+				for _, e := range probe.effects() {
+					got = append(got, ":"+e.S)
+				}
+				if strings.Join(got, " ") != want {
+					return "handler-or-finally-cut-short", fmt.Sprintf("effects [%s] after %v; [%s] expected: every form of the handler and of the finally body runs", strings.Join(got, " "), el, want)
+				}
 			}
 			if !wantValue && c.Opt["expect"] == "timeout" && !isTimeoutErr(o.err) {
 				return "no-timeout-error", fmt.Sprintf("returned %v / %v after %v", o.res, o.err, el)
